@@ -13,6 +13,7 @@ impl IoError {
     pub fn kind(&self) -> (r: IoErrorKind) ensures r == self.k { self.k }
 }
 pub mod std {
+    pub use ::core::mem;
     pub mod io {
         pub use crate::IoErrorKind as ErrorKind;
         pub use crate::IoError as Error;
